@@ -33,7 +33,7 @@ func VH_C09_K9_StartAny() {
 // new precommit numbers: nil quorum or everybody present; a jump-ahead) where the next round
 // entrance is answered with arbitrary vote numbers and 0-1 headers or with a committed header (a
 // node that lags by rounds enters a round the network has already voted in or decided), then
-// (thorough) 1 event of any kind, then 1 event without new numbers.
+// then 1 event without new numbers.
 func VH_C09_K9_LaterRound() {
 	vhOpts()
 	e := vhNewSM(true)
@@ -46,12 +46,10 @@ func VH_C09_K9_LaterRound() {
 	e.laterEntrancePHs = true
 	e.allowCatchup = true
 	e.run(0, []int{evViewPC, evJumpAhead}, 1)
+	// (thorough tier: an extra event of any kind before the quiet one did not finish within the
+	// budget - 104558 paths in 1500 s with two quiet events, 181355 with one; the thorough tier
+	// therefore has the quick shape, with exact nil/A/B targets and jumps by 1 or 2 rounds)
 	tail := 1
-	if verifrt.Thorough() && e.alive {
-		// (1 event of any kind + 2 quiet events did not finish within the thorough budget:
-		// 104558 paths in 1500 s; reduced to 1 + 1)
-		e.run(0, vhEvents(), 1)
-	}
 	if e.alive {
 		e.run(0, vhTailEvents, tail)
 	}
